@@ -9,6 +9,8 @@ CONSTANTS
   MaxMembers <- M10
   MaxClasses = 2
   BaseAlpha <- FileBases
+  MaxBases = 1
+  ClassComments <- NoComment
   TopAlpha <- None
   MaxTops = 0
   CmdKinds <- FileCmds
